@@ -113,3 +113,5 @@ var QuiesceHorizon = []time.Duration{
 	24*time.Hour + time.Millisecond, 24 * time.Hour, 24*time.Hour + time.Millisecond, time.Second,
 	21*24*time.Hour + time.Second, time.Second,
 }
+
+type sdkMsg = sdk.Msg
